@@ -2,19 +2,20 @@
 # Build the dependencies StyLua's extracted functions are type-checked against
 # (real full_moon / anyhow / similar from /repo's Cargo.lock) with Verus' pinned toolchain.
 # Two feature sets: "default" (full_moon without dialect features = what the baseline suite builds)
-# and "all" (luau, lua52, lua53, lua54, luajit = what releases ship).
+# and "all" (luau, lua52, lua53, lua54, luajit = what releases ship); "luajit" and "luau" alone are supported Cargo features of their own
+# (full_moon shares some variants between dialects: `//` exists under luau or lua53 — that is how D42 showed).
 set -euo pipefail
 ROOT="$(cd "$(dirname "$0")/.." && pwd)"
 TC=1.98.1-x86_64-unknown-linux-gnu
 export CARGO_NET_OFFLINE=true
-for fs in default all luajit; do
+for fs in default all luajit luau; do
   D="$ROOT/.build/vdeps/$fs"
   if ls "$D"/target/debug/deps/libfull_moon-*.rlib >/dev/null 2>&1 && ls "$D"/target/debug/deps/libec4rs-*.rlib >/dev/null 2>&1 && [ "$D/Cargo.lock" -nt /repo/Cargo.lock ]; then
     continue
   fi
   mkdir -p "$D/src"
   : > "$D/src/lib.rs"
-  if [ "$fs" = all ]; then FEAT='features=["luau","lua52","lua53","lua54","luajit"]'; elif [ "$fs" = luajit ]; then FEAT='features=["luajit"]'; else FEAT='features=[]'; fi
+  if [ "$fs" = all ]; then FEAT='features=["luau","lua52","lua53","lua54","luajit"]'; elif [ "$fs" = luajit ]; then FEAT='features=["luajit"]'; elif [ "$fs" = luau ]; then FEAT='features=["luau"]'; else FEAT='features=[]'; fi
   cat > "$D/Cargo.toml" <<TOML
 [package]
 name = "vdeps"
